@@ -5,8 +5,10 @@ package h
 import (
 	"context"
 	"fmt"
+	"os"
 	"sort"
 	"strings"
+	"sync"
 	"time"
 
 	dtypes "github.com/sdcio/data-server/pkg/datastore/types"
@@ -198,14 +200,80 @@ func runC16() int {
 	if Tier() == "thorough" {
 		pb, db = 3, 2
 	}
-	tot := exploreScenarios(rep, c16Scenarios(), pb, db, 3000, time.Now().Add(deadlineFor(8*time.Minute, 2*time.Hour)), func(scn, v string, x *verifrt.Execution) string {
+	sigOf := func(scn, v string, x *verifrt.Execution) string {
 		clause := strings.SplitN(v, ":", 2)[0]
 		if clause == "panic" {
 			clause = strings.Join(strings.SplitN(v, ":", 3)[:2], "@")
 		}
 		return clause + ":" + scn
-	})
-	return rep.Finish(tot.coverage(map[string]any{"harness": "A: TransactionManager level"}))
+	}
+	if len(os.Args) > 2 && os.Args[2] == "shard" {
+		// harness B, one scenario per shard
+		u, err := LoadUniverse()
+		if err != nil {
+			return fail(err)
+		}
+		var idx int
+		fmt.Sscan(os.Args[3], &idx)
+		scs := c16bScenarios(u)
+		defer c16bCache.Close()
+		srep := &Reporter{Property: "C16", bySig: map[string][]*Violation{}}
+		tot := exploreScenarios(srep, scs[idx:idx+1], pbB(), pbB(), 20000, time.Now().Add(deadlineFor(6*time.Minute, 90*time.Minute)), sigOf)
+		var vs []*Violation
+		for _, l := range srep.bySig {
+			for _, v := range l {
+				if v != nil {
+					vs = append(vs, v)
+				}
+			}
+		}
+		return writeShardResult(map[string]any{"Tot": tot, "Violations": vs})
+	}
+	tot := exploreScenarios(rep, c16Scenarios(), pb, db, 3000, time.Now().Add(deadlineFor(8*time.Minute, 2*time.Hour)), sigOf)
+	// harness B in parallel worker processes (the scheduler is a process-wide singleton)
+	u, err := LoadUniverse()
+	if err != nil {
+		return fail(err)
+	}
+	nB := len(c16bScenarios(u))
+	type shardOut struct {
+		Tot        *schedTotals
+		Violations []*Violation
+	}
+	outs := make([]shardOut, nB)
+	var wg sync.WaitGroup
+	failed := false
+	for i := 0; i < nB; i++ {
+		wg.Add(1)
+		go func(i int) {
+			defer wg.Done()
+			if err := runShard("C16", fmt.Sprint(i), fmt.Sprint(nB), &outs[i]); err != nil {
+				fmt.Fprintln(os.Stderr, err)
+				failed = true
+			}
+		}(i)
+	}
+	wg.Wait()
+	if failed {
+		return 2
+	}
+	for _, o := range outs {
+		for _, v := range o.Violations {
+			rep.Add(v)
+		}
+		tot.Executions += o.Tot.Executions
+		tot.Points += o.Tot.Points
+		tot.Divergences += o.Tot.Divergences
+		tot.Horizons += o.Tot.Horizons
+		tot.Capped = tot.Capped || o.Tot.Capped
+		for k, n := range o.Tot.Outcomes {
+			tot.Outcomes[k] += n
+		}
+		if len(tot.Samples) < 8 {
+			tot.Samples = append(tot.Samples, o.Tot.Samples...)
+		}
+	}
+	return rep.Finish(tot.coverage(map[string]any{"harness": "A: TransactionManager level with a recording rollbacker; B: Datastore level (real cache, recording device, real rollback)", "preemption_bound_harness_B": pbB()}))
 }
 
 func deadlineFor(q, t time.Duration) time.Duration {
@@ -217,4 +285,11 @@ func deadlineFor(q, t time.Duration) time.Duration {
 
 func init() {
 	Checks["C16"] = func([]string) int { return runC16() }
+}
+
+func pbB() int {
+	if Tier() == "thorough" {
+		return 2
+	}
+	return 1
 }
